@@ -65,7 +65,9 @@ class Extractor:
         self.counter = {}     # lid -> ('count', domain, bound-desc)
         self.containers = {}  # lid -> dict(name, kind, adds, node)
         self.listvar = {}     # lid -> domain of a local list of elements
+        self.idxvar = {}      # lid -> index description of an integral local (e.g. size_t pos = strTo<size_t>(ATTR(state, "documentOrder")))
         self.equations, self.streams = [], []
+        self._depth, self.inlined = 0, []
         self.depth = {'S': 0, 'T': 0, 'E': 0}
         body = func.d.get('body')
         if not body:
@@ -178,6 +180,8 @@ class Extractor:
             return self.index_of(p['c'][-1])
         if p['k'] == 'DeclRefExpr' and p['ref'].get('lid') in self.counter:
             return self.counter[p['ref']['lid']]
+        if p['k'] == 'DeclRefExpr' and p['ref'].get('lid') in self.idxvar:
+            return self.idxvar[p['ref']['lid']]
         a = self.attr_of(p)
         if a:
             return a
@@ -506,10 +510,14 @@ class Extractor:
                 # filterChildElements(prefix + "final", _scxml): children of the root -> states
                 lits = [x.get('str') for x in sub(ini) if x['k'] == 'StringLiteral']
                 self.listvar[d['lid']] = 'S' if any(l in ('final', 'state', 'parallel', 'history') for l in lits) else 'E'
-            elif 'basic_string' in t or t == 'std::string':
+            elif 'basic_string' in t or 'std::string' in t:
                 a = self.attr_of(ini)
                 if a:
                     self.strvar[d['lid']] = a
+            elif t.replace('const ', '').strip() in ('size_t', 'unsigned long', 'unsigned int', 'int', 'long', 'uint32_t', 'std::size_t'):
+                ix = self.index_of(ini)
+                if ix is not None:
+                    self.idxvar[d['lid']] = ix
 
     def expr_stmt(self, s, ctx):
         p = peel(s)
@@ -538,6 +546,27 @@ class Extractor:
                     parts += self.string_parts(o)
             self.streams.append({'parts': parts, 'ctx': ctx, 'node': p})
             return
+        # a call to another writer of the class (a function split in two): its body is processed in place
+        if p['k'] in ('CXXMemberCallExpr', 'CallExpr') and p.get('callee') and not p['callee'].get('ext') and not p['callee'].get('virt') and p['callee']['m'] in self.fb.funcs:
+            cf = self.fb.funcs[p['callee']['m']]
+            if cf.m != self.f.m and cf.d.get('body') and any('ostream' in (pp.get('t') or '') for pp in cf.d.get('params', [])) and self._depth < 2 and (
+                    cf.rec == self.f.rec or (cf.rec is None and cf.file == self.f.file)):
+                import copy
+                from .inline import _shift
+                self._depth += 1
+                self.inlined.append(cf.q)
+                off = 1000000 * len(self.inlined)          # local ids are per function: shift the callee's
+                body = copy.deepcopy(cf.d['body'])
+                _shift(body, off)
+                # bind element-typed parameters to the elements of the arguments
+                args = p['c'][1:]
+                for pp, a in zip(cf.d.get('params', []), args):
+                    e = self.elem_of(a)
+                    if e:
+                        self.elem[pp['lid'] + off] = e
+                self.block(body, ctx)
+                self._depth -= 1
+                return
         # tree->print(stream) and anything else: no effect on the extracted facts
 
 
